@@ -57,7 +57,17 @@ def run(chk):
                 break
         return found
 
+    # extended slices (del v[::2], v[::-1] = ..., step 0): implementation against the plain-list semantics only
+    stepped = [c12gen.stepped_history(chk.rng, cls, 4) for cls in impl.VEC_CLASSES for _ in range(60 if chk.tier == 'quick' else 1500)]
     proved = common.proof_stage(chk, 'Props.C12', [], search)
+    ns = 0
+    for l in stepped:
+        _, fails = impl_run(impl, l)
+        if fails and ns < 3:
+            ns += 1
+            s = shrink(impl, l)
+            chk.violation('%s: %s' % (s.split(' ')[1], impl_run(impl, s)[1][0]), {'cmd': s, 'original': l, 'stage': 'extended-slices'}, None, True)
+    chk.coverage['extended_slice_histories'] = len(stepped)
     br = common.build_runner()
     results = [impl_run(impl, l) for l in lines]
     nv = 0
